@@ -75,3 +75,6 @@ def handler_preamble(chk, ex, funcs):
     chk.require_sat(f"{chk.prop}.{ex.kind}.pre_satisfiable", ex.st0.pc, desc="vacuity guard: the precondition of the handler exploration is satisfiable")
     if not ex.paths:
         chk.fault(f"no paths explored for {ex.kind}")
+    from .hreplay import attach_replay, crosscheck
+    attach_replay(ex)
+    crosscheck(chk, ex)
